@@ -1,10 +1,10 @@
 CONSTANTS
-  Mode = "scp"
-  CheckNames = FALSE
-  FilterNames = FALSE
-  DestKinds = {"dir", "none", "file"}
+  Mode = "get"
+  CheckNames = TRUE
+  FilterNames = TRUE
+  DestKinds = {"dir", "none"}
   Conts = {TRUE, FALSE}
-  MaxRec = 3
+  MaxRec = 2
   Fuel = 8
   SNames <- c_SNames
   Backslash <- c_Backslash
